@@ -237,8 +237,79 @@ def rule_registration(ctx, F, rule="R4"):
            "both selection systems must be added to Update ordered before animate::<T>", b["span"], what="system-ordering")
 
 
+def rule_glue(ctx, F, rule="R7"):
+    """constructors and builders of the selector and the chain hand the keys and timelines on unchanged: a timeline added
+    under key k is found under k, the initial key is the one given, a chain entry (ended -> next) is stored as given"""
+    R = sel_roles(F)
+    SB = "bevy_mina::selection::AnimationSelectorBuilder"
+    CB = "bevy_mina::selection::AnimationChainBuilder"
+    from rules import c03
+    one = c18._single_return
+    # AnimationSelector::new(timelines, initial_key)
+    b, p, ps = one(F, crate="bevy_mina", name="new", impl_self_adt=SELECTOR)
+    ok = p is not None and p.ret[0] == "agg"
+    if ok:
+        f = dict(p.ret[4])
+        ok = f[R["timelines"]] == ("param", 1) and f[R["key"]] == ("param", 2) and f[R["prev"]][0] == "agg" and f[R["prev"]][3] == "None"
+    ctx.ob(rule, "AnimationSelector::new", ok, "new(timelines, key) must store both as given with no applied key yet",
+           b["span"], what="selector-glue-wrong")
+    # builder: new / add / initial_key / build
+    sb = F.adt(SB)
+    f_map = [f["name"] for f in sb["variants"][0]["fields"] if "HashMap<" in f["ty"]]
+    f_key = [f["name"] for f in sb["variants"][0]["fields"] if f["ty"] == "K"]
+    if len(f_map) != 1 or len(f_key) != 1:
+        ctx.lost(rule, "AnimationSelectorBuilder", "fields (map, initial key)")
+        return
+    b, p, ps = one(F, crate="bevy_mina", name="add", impl_self_adt=SB)
+    ok = p is not None
+    if ok:
+        muts = [e for e in calls(p, lambda e: True) if any(a[0] == "ref" and a[3] for a in e["args"])]
+        ch = c03._changed_fields(p.ret, ("param", 1))
+        ok = len(muts) == 1 and c18._is_insert(muts[0], ("&mut", ("field", ("param", 1), f_map[0])), ("param", 2),
+                                               c18._boxed(("param", 3))) and ch is not None and set(ch) == {f_map[0]}
+    ctx.ob(rule, "AnimationSelectorBuilder::add", ok, "add(key, timeline) must insert the timeline under that key and change "
+           "nothing else", b["span"], what="selector-glue-wrong")
+    b, p, ps = one(F, crate="bevy_mina", name="initial_key", impl_self_adt=SB)
+    ch = c03._changed_fields(p.ret, ("param", 1)) if p is not None else None
+    ctx.ob(rule, "AnimationSelectorBuilder::initial_key", ch == {f_key[0]: ("param", 2)},
+           "initial_key(k) must store k as the starting key and nothing else", b["span"], what="selector-glue-wrong")
+    b, p, ps = one(F, crate="bevy_mina", name="build", impl_self_adt=SB)
+    ok = p is not None and p.ret[0] == "agg" and p.ret[2] == SELECTOR
+    if ok:
+        f = dict(p.ret[4])
+        ok = f[R["timelines"]] == ("field", ("param", 1), f_map[0]) and f[R["key"]] == ("field", ("param", 1), f_key[0]) and \
+            f[R["prev"]][0] == "agg" and f[R["prev"]][3] == "None"
+    ctx.ob(rule, "AnimationSelectorBuilder::build", ok, "build() must hand the registered timelines and the initial key on "
+           "unchanged", b["span"], what="selector-glue-wrong")
+    # chain: reset_after(k) = {k -> default}; builder add(ended, next) inserts (ended, next); build hands the map on
+    cm = [f["name"] for f in F.adt(CHAIN)["variants"][0]["fields"] if "HashMap<" in f["ty"]]
+    b, p, ps = one(F, crate="bevy_mina", name="reset_after", impl_self_adt=CHAIN)
+    ok = p is not None and p.ret[0] == "agg" and len(cm) == 1
+    if ok:
+        v = dict(p.ret[4])[cm[0]]
+        ok = v[0] == "call" and "HashMap" in v[1] and v[1].endswith("::from") and v[2][0][0] == "agg" and v[2][0][1] == "array" and \
+            len(v[2][0][4]) == 1 and tuple(x for _, x in v[2][0][4][0][1][4]) == (("param", 1), ("call", "core::default::Default::default", ()))
+    ctx.ob(rule, "AnimationChain::reset_after", ok, "reset_after(k) must map exactly k to the default key", b["span"],
+           what="chain-glue-wrong")
+    b, p, ps = one(F, crate="bevy_mina", name="add", impl_self_adt=CB)
+    cbm = [f["name"] for f in F.adt(CB)["variants"][0]["fields"] if "HashMap<" in f["ty"]]
+    ok = p is not None and len(cbm) == 1
+    if ok:
+        muts = [e for e in calls(p, lambda e: True) if any(a[0] == "ref" and a[3] for a in e["args"])]
+        ok = len(muts) == 1 and c18._is_insert(muts[0], ("&mut", ("field", ("param", 1), cbm[0])), ("param", 2),
+                                               lambda v: v == ("param", 3))
+    ctx.ob(rule, "AnimationChainBuilder::add", ok, "add(ended, next) must insert exactly (ended -> next)", b["span"],
+           what="chain-glue-wrong")
+    b, p, ps = one(F, crate="bevy_mina", name="build", impl_self_adt=CB)
+    ok = p is not None and p.ret[0] == "agg" and p.ret[2] == CHAIN and len(cbm) == 1 and \
+        dict(p.ret[4]).get(cm[0] if cm else "") == ("field", ("param", 1), cbm[0])
+    ctx.ob(rule, "AnimationChainBuilder::build", ok, "build() must hand the map on unchanged", b["span"], what="chain-glue-wrong")
+
+
 def check(ctx):
     F = ctx.facts
+    rule_glue(ctx, F, "R7")
+    c18.rule_constructors(ctx, F, "R7")
     rule_select(ctx, F, "R1")
     rule_chain(ctx, F, "R2", "R3")
     rule_registration(ctx, F, "R4")
